@@ -554,9 +554,13 @@ def csv_import_hands_the_declared_delimiter_to_both_readers(K, delimiter):
     def read_array(file_name, block, num_header_rows, *a, **k):
         seen["array"] = k.get("delimiter", a[0] if a else ",")
         return np.array([[1.5]])
-    db = K.stubbed(IMP._read_csv, read_csv, "reading the cells of the sheet has its own contract (csv_cells_are_split_at_the_declared_delimiter)",
-                   lambda: K.stubbed(IMP._read_array_for_block, read_array, "numpy.genfromtxt on the file: external",
-                                     lambda: K.call(Databox.from_csv_file, "sheet.csv", delimiter=delimiter)))
+    def both(delim):
+        return K.stubbed(IMP._read_csv, read_csv, "reading the cells of the sheet has its own contract (csv_cells_are_split_at_the_declared_delimiter)",
+                         lambda: K.stubbed(IMP._read_array_for_block, read_array, "numpy.genfromtxt on the file: external",
+                                           lambda: K.call(Databox.from_csv_file, "sheet.csv", delimiter=delim)))
+    both("\t" if delimiter == "," else ",")         # history: an earlier import with ANOTHER delimiter leaves nothing behind
+    seen.clear()
+    db = both(delimiter)
     K.ensure("header and date cells are read with the declared delimiter", seen.get("csv") == delimiter)
     K.ensure("the numeric block is read with the declared delimiter", seen.get("array") == delimiter)
     K.ensure("the series arrives", list(K.method(db, "get_names")) == ["a"])
@@ -570,11 +574,11 @@ def csv_import_places_every_cell(K, with_descriptions):
     variants (`*` column), filler rows under the shorter block: every series gets its frequency, its periods from the
     date cells of ITS block, one variant per column, the numbers of its own columns (arbitrary values, missing cells
     included) and, when there is a description row, its description."""
-    name_row = ["__quarterly__", "a", "b", "*", "", "__monthly__", "c", ""]
-    desc_row = ["", "first", "second", "*", "", "", "third", ""]
+    name_row = ["__quarterly__", "a", "b", "*", "", "__monthly__", "c", "", "__unknown__", "e", ""]      # last block: a series without observations
+    desc_row = ["", "first", "second", "*", "", "", "third", "", "", "empty one", ""]
     dates_q = ["2020-Q3", "2020-Q4", "", ""]
     dates_m = ["2021-01", "2021-02", "2021-03", "2021-04"]
-    rows = [[dq, "x", "x", "x", "", dm, "x", ""] for dq, dm in zip(dates_q, dates_m)]
+    rows = [[dq, "x", "x", "x", "", dm, "x", "", "", "", ""] for dq, dm in zip(dates_q, dates_m)]
     cells = ([list(name_row)] + ([list(desc_row)] if with_descriptions else []) + rows)
     num_q = K.array("q_numbers", (4, 3))          # the numeric reader returns every row of the sheet for the block's columns
     num_m = K.array("m_numbers", (4, 1))
@@ -583,13 +587,21 @@ def csv_import_places_every_cell(K, with_descriptions):
     def read_array(file_name, block, num_header_rows, *a, **k):
         start = K.attr(block, "column_start")
         asked.append((start, K.attr(block, "num_columns"), num_header_rows))
+        if start == 9:
+            return np.full((4, 2), np.nan)
         return num_q if start == 1 else num_m
     db = K.stubbed(IMP._read_csv, lambda *a, **k: [list(r) for r in cells], "the cells of the sheet (reading them has its own contract)",
                    lambda: K.stubbed(IMP._read_array_for_block, read_array, "numpy.genfromtxt on the file: external; represented by arbitrary numbers",
                                      lambda: K.call(Databox.from_csv_file, "sheet.csv", description_row=with_descriptions)))
     K.ensure("the numeric reader is asked for the columns of each block, below the header rows",
-             sorted(asked) == [(1, 4, 1 + int(with_descriptions)), (6, 2, 1 + int(with_descriptions))])
-    K.ensure("the three series arrive under their names", sorted(K.method(db, "get_names")) == ["a", "b", "c"])
+             sorted(asked) == [(1, 4, 1 + int(with_descriptions)), (6, 2, 1 + int(with_descriptions)), (9, 2, 1 + int(with_descriptions))])
+    K.ensure("the four series arrive under their names", sorted(K.method(db, "get_names")) == ["a", "b", "c", "e"])
+    if "e" in K.method(db, "get_names"):
+        e = K.index(db, "e")
+        es, ed = state(K, e)
+        K.ensure("the series without observations comes back as the empty series", es is None and K.shape(ed)[0] == 0)
+        if with_descriptions:
+            K.ensure("... with its description", K.method(e, "get_description") == "empty one")
     for name, cls, start, nrows, src, cols, desc in (("a", D.QuarterlyPeriod, D.qq(2020, 3).serial, 2, num_q, (0,), "first"),
                                                      ("b", D.QuarterlyPeriod, D.qq(2020, 3).serial, 2, num_q, (1, 2), "second"),
                                                      ("c", D.MonthlyPeriod, D.mm(2021, 1).serial, 4, num_m, (0,), "third")):
